@@ -21,6 +21,13 @@ let parse_op (cnt : int) (tok : string) : int op =
   | ["insr"; j; vs] ->
     let l = if vs = "" then [] else Stdlib.List.map int_of_string (String.split_on_char ',' vs) in
     OInsertRange (n (int_of_string j), l)
+  | ["insi"; j; vs] ->
+    let l = if vs = "" then [] else Stdlib.List.map int_of_string (String.split_on_char ',' vs) in
+    OInsertInput (n (int_of_string j), l)
+  | ["asgr"; vs] ->
+    OAssignRange (if vs = "" then [] else Stdlib.List.map int_of_string (String.split_on_char ',' vs))
+  | ["rb"; c] -> ORemoveBack (n (int_of_string c))
+  | ["clr"; b] -> OClear (b = "1")
   | ["rm"; j; c] -> ORemove (n (int_of_string j), n (int_of_string c))
   | ["rmf"; m] -> let m = int_of_string m in ORemoveFilter (fun v -> v mod m = 0)
   | ["sc"; c; k; x] -> OSetCount (n (int_of_string c), arg_of k x)
